@@ -18,7 +18,8 @@ from .common import COQ
 
 FOREIGN = 1_000_000
 COQ_MODEL = ["C14G/CfgSem.v", "C14G/CfgCheck.v"]
-COQ_PROOFS = ["C14G/CfgSemProofs.v", "C14G/ChainProofs.v", "C14G/FlipProofs.v", "C14G/TailProofs.v", "C14G/PropsCfg.v"]
+COQ_PROOFS = ["C14G/CfgSemProofs.v", "C14G/ChainProofs.v", "C14G/FlipProofs.v", "C14G/TailProofs.v", "C14G/SplitProofs.v",
+              "C14G/PropsCfg.v"]
 IMPORTS = ("From Coq Require Import NArith String.\nFrom Verif Require Import C14G.CfgSem C14G.CfgCheck.\n"
            "Open Scope string_scope.\nOpen Scope Z_scope.\n")
 PASSES = ("SimplifyCFGPass", "BranchOptimizationPass", "TailMergePass", "CFGNormalization")
